@@ -19,7 +19,7 @@ RULE = ("definitions generated from the documented SFDL grammar over the catalog
         "<= 6, optional list names, random whitespace incl. none where legal, '#' comments) plus the shipped definitions; "
         "for each a body with 0-2 elements per open list is built from the documented shape; bracket and name mutants; the 60 "
         "pinned definitions of the known finding (known/c19_named_forms_corpus.json) with their recorded reading; "
-        "distinct by definition text; non-trivial when the definition contains at least one list; plus: pairs of definitions that differ only in where the line break ends a comment; names of non-item attributes of the data item package as unknown names")
+        "distinct by definition text; non-trivial when the definition contains at least one list; plus: pairs of definitions that differ only in where the line break ends a comment; names of non-item attributes of the data item package as unknown names; comments ended by a lone CR; definitions placed as _data_format of function classes that derive from a shipped or an own function used before (subclass with its own text, subclass without, parent afterwards)")
 ASSUMPTIONS = ["docs/firststeps/sfdl.md is the specification of shapes and key names", "duplicate keys inside one record, "
                "empty lists '<L>' and trailing text are undocumented and not generated", "a comment glued to a token is always followed by "
                "whitespace after its line break (the tokenizer swallows the line break with the comment)"]
@@ -29,7 +29,7 @@ LEVEL_NOTE = "The model is the documentation, not the code; shapes are observed 
 TECHNIQUE = "runtime differential oracle (documented-shape reference model) over grammar-generated definitions and mutants"
 SHARDS = {"quick": 8, "thorough": 16}
 TIMEOUT = {"quick": 300, "thorough": 3000}
-FLOORS = {"oracle.shape": 500, "oracle.missing_bracket": 500, "oracle.unknown_item": 500, "enumerated.shipped_definitions": 100}
+FLOORS = {"oracle.shape": 500, "oracle.missing_bracket": 500, "oracle.unknown_item": 500, "enumerated.shipped_definitions": 100, "oracle.function_class": 300}
 
 
 def _catalogue():
@@ -93,11 +93,11 @@ def render(ast, rng, fancy=True):
         r = rng.random()
         base = rng.choice([" ", "  ", "\n", "\t", "\r\n", "\n    ", " \t "])
         if r < 0.08:
-            return base + "# " + rng.choice(["comment", "a <b> c", "> L <", "x # y", ""]) + rng.choice(["\n", "\r\n", "\n  "])
+            return base + "# " + rng.choice(["comment", "a <b> c", "> L <", "x # y", ""]) + rng.choice(["\n", "\r\n", "\n  ", "\r", "\r "])
         if r < 0.11:
             # a comment glued to the preceding token ("Comments start with a # and end with the line break"); the line break
             # itself is swallowed with the comment, so whitespace follows before the next token
-            return "#" + rng.choice(["", " glued", "<x>"]) + rng.choice(["\n ", "\r\n\t", "\n  "])
+            return "#" + rng.choice(["", " glued", "<x>"]) + rng.choice(["\n ", "\r\n\t", "\n  ", "\r "])
         if r < 0.35 and not required:
             return ""
         return base
@@ -373,6 +373,72 @@ def _mutants(ctx, G, ast, rng, names_set):
             pass
 
 
+def _function_class_case(ctx, G, cat, rng, names, shipped):
+    """A definition is read where applications put it: as `_data_format` of a function class.  The class may derive from
+    another function (a shipped one, or the application's own) that was used before; each class is read by its own text."""
+    from secsgem.secs.functions.base import SecsStreamFunction
+
+    def supported_def():
+        for _ in range(50):
+            ast = gen_def(rng, names, rng.choice([1, 2, 3]), rng.choice([2, 3]))
+            if supported_subset(ast):
+                return ast, render(ast, rng, fancy=rng.random() < 0.5)
+        return None, None
+
+    def judge(cls, ast, text, who):
+        ctx.count("oracle.function_class")
+        tree, expected = build(ast, cat, rng)
+        body = e5ref.encode(tree)
+        wit = {"class": who, "definition": " ".join(text.split())[:400], "body_tree": gen.describe(tree)}
+        try:
+            obj = cls()
+            obj.decode(body)
+            got = obj.get()
+        except Exception as exc:
+            ctx.violation(f"function-class-body-not-decodable:{who}", {**wit, "error": repr(exc)[:300]})
+            return False
+        if not sv.same_value(got, expected):
+            ctx.violation(f"function-class-shape-differs-from-its-definition:{who}", {**wit, "expected_get": expected, "got": got})
+            return False
+        try:
+            if cls.get_format() != G.get_format(text):
+                ctx.violation(f"function-class-format-text-differs:{who}", {**wit, "class_format": str(cls.get_format())[:300],
+                                                                          "definition_format": str(G.get_format(text))[:300]})
+                return False
+        except Exception as exc:
+            ctx.violation(f"function-class-format-raises:{who}", {**wit, "error": repr(exc)[:300]})
+            return False
+        return True
+
+    ast1, text1 = supported_def()
+    ast2, text2 = supported_def()
+    if ast1 is None or ast2 is None:
+        return
+    if shipped and rng.random() < 0.4:
+        parent = rng.choice(shipped)
+        try:
+            ast1, text1 = parse_shipped(parent._data_format), parent._data_format
+        except Exception:
+            return
+        if not supported_subset(ast1):
+            return
+    else:
+        parent = type("SecsS99F01", (SecsStreamFunction,), {"_stream": 99, "_function": 1, "_data_format": text1,
+                                                            "_to_host": True, "_to_equipment": True})
+    order = rng.choice(["parent-first", "child-first", "parent-format-first"])
+    child = type("CustomFunction", (parent,), {"_data_format": text2})
+    ok = True
+    if order == "parent-first":
+        ok = judge(parent, ast1, text1, "parent")
+    elif order == "parent-format-first":
+        parent.get_format()
+    ok = ok and judge(child, ast2, text2, "subclass-with-its-own-definition:" + order)
+    ok = ok and judge(parent, ast1, text1, "parent-after-subclass")
+    # a second subclass without a definition of its own reads the parent's
+    heir = type("Heir", (parent,), {})
+    ok and judge(heir, ast1, text1, "subclass-without-definition")
+
+
 def run(ctx):
     from secsgem.secs.functions._all import secs_streams_functions
     from secsgem.secs.variables import functions as G
@@ -402,6 +468,9 @@ def run(ctx):
         ctx.count("enumerated.shipped_definitions")
     ctx.exhaustive["shipped_definitions"] = True
     _known_corpus(ctx, G, cat)
+    shipped = [f for f in sorted(secs_streams_functions, key=lambda c: (c.stream, c.function)) if isinstance(f._data_format, str)]
+    for _ in range(60 if ctx.quick else 6000):
+        _function_class_case(ctx, G, cat, rng, names, shipped)
     _twins(ctx, G, cat, rng, names, 30 if ctx.quick else 3000)
     n = 700 if ctx.quick else 250000
     for i in range(n):
